@@ -1,7 +1,7 @@
 (** Renumbering of a registry (C17): every id reference is renamed by [pi] and
     the entry that was at position [i] moves to position [pi i].  New
     definitions only; nothing of the validated model is changed. *)
-From Coq Require Import List NArith String Bool.
+From Coq Require Import List NArith String Bool Sorted.
 From V Require Import Base.Strings Base.Result Model.Registry Model.Settings Model.Subst
   Model.TypePath Model.Derives Model.Generate Model.Emit.
 Import ListNotations.
@@ -101,3 +101,10 @@ Definition unique_item_paths (r : registry) (s : settings) : Prop :=
   forall e1 e2, In e1 r -> In e2 r ->
     item_entry s (snd e1) = true -> item_entry s (snd e2) = true ->
     t_path (snd e1) = t_path (snd e2) -> e1 = e2.
+
+(** ** the ordered map of items (C17: the output is ordered by path, not by id) *)
+Definition path_lt (a b : list string) : Prop := path_compare a b = Lt.
+Definition items_sorted (m : items) : Prop := StronglySorted path_lt (map fst m).
+(** insertion of a list of (path, item) pairs, in list order *)
+Definition insert_all (l : list (list string * (N * type_ir))) (acc : items) : items :=
+  fold_left (fun m e => items_insert m (fst e) (snd e)) l acc.
